@@ -158,6 +158,28 @@ struct dispatch_table
         }
     };
 
+    // calls a transition triggered by a base class of the event: the event reference is converted
+    // (derived-to-base) by the call instead of being reinterpreted
+    template <class Transition>
+    struct call_with_base_event
+    {
+        static HandledEnum execute(Fsm& fsm, int region_index, int state, Event const& evt)
+        {
+            return Transition::execute(fsm,region_index,state,evt);
+        }
+    };
+    // the trigger is the event type itself: the transition can be called directly
+    template <class Transition>
+    static cell make_cell( ::boost::mpl::true_ const &)
+    {
+        return &Transition::execute;
+    }
+    template <class Transition>
+    static cell make_cell( ::boost::mpl::false_ const &)
+    {
+        return &call_with_base_event<Transition>::execute;
+    }
+
     // A function object for use with mpl::for_each that stuffs
     // transitions into cells.
     struct init_cell
@@ -176,9 +198,8 @@ struct dispatch_table
             typedef typename create_stt<Fsm>::type stt; 
             BOOST_STATIC_CONSTANT(int, state_id = 
                 (get_state_id<stt,typename Transition::current_state_type>::value));
-            // reinterpret_cast to uintptr_t to suppress gcc-11 warning
-            self->entries[state_id + 1] = reinterpret_cast<cell>(
-                reinterpret_cast<std::uintptr_t>(&Transition::execute));
+            self->entries[state_id + 1] = make_cell<Transition>(
+                typename ::boost::is_same<typename Transition::transition_event,Event>::type());
         }
         template <class Transition>
         typename ::boost::enable_if<
@@ -186,7 +207,8 @@ struct dispatch_table
         ,void>::type
         init_event_base_case(Transition const&, ::boost::mpl::true_ const &, ::boost::mpl::false_ const &) const
         {
-            self->entries[0] = reinterpret_cast<cell>(&Transition::execute);
+            self->entries[0] = make_cell<Transition>(
+                typename ::boost::is_same<typename Transition::transition_event,Event>::type());
         }
 
         // version for transition event is boost::any
